@@ -208,7 +208,9 @@ func TestC15Rollover(t *testing.T) {
 			ops = append(ops, fmt.Sprintf("seal dir%d %s #%d (epoch %d)", di, map[bool]string{false: "regular", true: "priority"}[prio], seq, d.epochS))
 		}
 
-		deliver := func(x *c15Sealed, again bool) {
+		var deliverAgain []*c15Sealed
+		var deliver func(x *c15Sealed, again bool)
+		deliver = func(x *c15Sealed, again bool) {
 			d := dirs[x.dir]
 			cls := c15cls(x.prio)
 			var err error
@@ -232,7 +234,7 @@ func TestC15Rollover(t *testing.T) {
 					verdict = 1
 				}
 			case x.epoch == d.epochR+1:
-				if !x.prio && d.anyAcc[0] && d.newest[0] >= c15Upper {
+				if !x.prio && d.anyAcc[0] && d.newest[0] >= c15Upper && x.seq <= 255 {
 					verdict = 1
 				} else {
 					// Priority frame of the next epoch before the receiver rolled
@@ -269,12 +271,29 @@ func TestC15Rollover(t *testing.T) {
 					d.newest[cls] = x.seq
 				}
 				d.anyAcc[cls] = true
+				// Exactly at the lower edge of the rollover zone: frames from the
+				// beginning of this key epoch are offered again.
+				if cls == 0 && x.seq == c15Upper && !again {
+					n := 0
+					for _, old := range d.done {
+						if old.epoch == x.epoch && !old.prio && old.seq <= 255 && n < 3 {
+							n++
+							deliverAgain = append(deliverAgain, old)
+						}
+					}
+				}
+			}
+			for len(deliverAgain) > 0 && !again {
+				old := deliverAgain[0]
+				deliverAgain = deliverAgain[1:]
+				c.Class("early-frame-replayed-at-the-edge-of-the-rollover-zone")
+				deliver(old, true)
 			}
 		}
 
 		n := c.Int("ops", 4, 120)
 		for i := 0; i < n; i++ {
-			switch c.Weighted("op", 0, 30, 12, 40, 8, 4, 8, 3) {
+			switch c.Weighted("op", 0, 30, 12, 40, 8, 4, 8, 3, 3) {
 			case 1:
 				seal(c.Pick("seal.dir", 2), false)
 			case 2:
@@ -300,6 +319,19 @@ func TestC15Rollover(t *testing.T) {
 				d.pending = append(d.pending[:idx], d.pending[idx+1:]...)
 				deliver(x, false)
 				d.done = append(d.done, x)
+			case 8: // a long time passes: the regular counter of one direction is close to the wrap (again)
+				di := c.Pick("jump.dir", 2)
+				d := dirs[di]
+				if len(d.pending) > 0 {
+					continue
+				}
+				k := uint32(c.Int("jump.k", 2, 300))
+				if d.lastSeq[0] >= 0xFFFFFFFF-k {
+					continue // time does not run backwards
+				}
+				d.sendH.ReglSetOut(0xFFFFFFFF - k + 1)
+				ops = append(ops, fmt.Sprintf("dir%d regular counter jumps to 2^32-%d", di, k))
+				c.Class("history-with-a-counter-jump")
 			case 7: // the remote asks for new keys with an unusable key-exchange share: the attempt fails
 				di := c.Pick("badkx.dir", 2)
 				d := dirs[di]
